@@ -377,6 +377,30 @@ def _cell(v):
     return "?" + repr(v)
 
 
+def deep_value(v):
+    """decoded value of a composite type -> the abstract value form of WireResponses.tla (EVal): field NAMES and
+    values in order for a UDT (the driver returns a namedtuple), elements in order for tuple / list / set / map"""
+    if v is None:
+        return ["null"]
+    if isinstance(v, bool):
+        return ["?", repr(v)]
+    if isinstance(v, int):
+        return ["i", v]
+    if isinstance(v, (str, bytes)):
+        return ["s", list(_b(v))]
+    if isinstance(v, tuple) and hasattr(v, "_fields"):
+        return ["udt", [[list(_b(n)), deep_value(x)] for n, x in zip(v._fields, v)]]
+    if isinstance(v, tuple):
+        return ["tuple", [deep_value(x) for x in v]]
+    if isinstance(v, list):
+        return ["list", [deep_value(x) for x in v]]
+    if hasattr(v, "items"):
+        return ["map", [[deep_value(k), deep_value(x)] for k, x in v.items()]]
+    if hasattr(v, "__iter__"):
+        return ["set", [deep_value(x) for x in v]]
+    return ["?", repr(v)]
+
+
 def _val(v):
     """specification [bytes] value -> bytes / None"""
     return None if v[0] != "v" else bytes(v[1])
@@ -471,7 +495,7 @@ def expected_fields(st):
             f["column_names"] = [bytes(x["name"]) for x in cols]
             f["column_types"] = [spec_type_tree(x["type"]) for x in cols]
             f["column_tables"] = None if exp["nometa"] else [(bytes(x["ks"]), bytes(x["table"])) for x in cols]
-            f["parsed_rows"] = [[_val(cell) for cell in row] for row in exp["rows"]]
+            f["parsed_rows"] = exp["deep"] if "deep" in exp else [[_val(cell) for cell in row] for row in exp["rows"]]
             f["paging_state"] = _ob(exp["paging_state"])
             f["result_metadata_id"] = _ob(exp["metadata_id"])
             f["continuous_paging_seq"] = exp["cont"][0]["seq"] if exp["cont"] else None
@@ -593,7 +617,8 @@ def projected_fields(st, msg):
             f["column_types"] = None if msg.column_types is None else [type_tree(t) for t in msg.column_types]
             md = msg.column_metadata
             f["column_tables"] = None if md is None else [(_b(x[0]), _b(x[1])) for x in md]
-            f["parsed_rows"] = None if msg.parsed_rows is None else [[_cell(v) for v in row] for row in msg.parsed_rows]
+            cell = deep_value if "deep" in exp else _cell
+            f["parsed_rows"] = None if msg.parsed_rows is None else [[cell(v) for v in row] for row in msg.parsed_rows]
             f["paging_state"] = msg.paging_state
             f["result_metadata_id"] = getattr(msg, "result_metadata_id", None)
             f["continuous_paging_seq"] = msg.continuous_paging_seq
@@ -632,7 +657,7 @@ def judge_response(st):
     exp = st["exp"]
     cls = exp["cls"]
     sub = exp.get("kind") or ("0x%04x" % exp["code"] if cls == "ERROR" else exp.get("etype")) or ""
-    scope = cls + (":" + sub if sub else "")
+    scope = cls + (":" + sub if sub else "") + (":evolving-udt" if st["c"].get("scn") else "")
     got = decode_case(st["c"], result_metadata_for(exp))
     if got[0] == "raised":
         return [("raised", scope, got[1])], {"raised": got[1], "text": got[2]}
